@@ -473,10 +473,14 @@ def sparseCover (revealSingle : Bool) (log : List Nat) (s : Screen) : Except Err
 
 def lexLe (a b : List Int) : Bool := decide (a ≤ b)
 
-/-- indices of `counts` in decreasing order of count, ties in index order (`np.argsort(-counts)`, stable for the
-    small arrays the tie uses) -/
-def argsortDesc (counts : List Nat) : List Nat :=
-  ((List.range counts.length).mergeSort (fun i j => decide (counts[j]! ≤ counts[i]!)))
+/-- contract of `unique[np.argsort(-counts)[:k]]` on the value `anchor` the code went on with: `k` distinct members of
+    `uniq`, in non-increasing order of count, none of the left-out ids having a larger count than a chosen one.
+    (numpy's default sort is not stable, so *which* of several equally frequent ids is taken comes from the log.) -/
+def validAnchor (uniq : List Int) (counts : List Nat) (k : Nat) (anchor : List Int) : Bool :=
+  let cnt := fun (t : Int) => counts[uniq.idxOf t]!
+  anchor.length == min k uniq.length && anchor.eraseDups.length == anchor.length && anchor.all (fun t => uniq.contains t)
+    && (anchor.zip (anchor.drop 1)).all (fun p => cnt p.2 ≤ cnt p.1)
+    && (uniq.filter (fun t => !anchor.contains t)).all (fun t => anchor.all (fun a => cnt t ≤ cnt a))
 
 def pyFloorDiv (a : Nat) (b : Int) : Except Err Int := if b == 0 then .error .zeroDivision else .ok (Int.fdiv a b)
 
@@ -486,11 +490,11 @@ def splitPerm (xs perm : List Int) (n : Int) : Except Err (List (List Int)) :=
   else if n ≤ 0 then .error .valueError
   else .ok (arraySplit perm n.toNat)
 
-def pairwiseGroups (subsetSize anchorSize : Int) (uniq : List Int) (counts : List Nat) (perms : List (List Int)) :
-    Except Err (List (List Int)) :=
+def pairwiseGroups (subsetSize anchorSize : Int) (uniq : List Int) (counts : List Nat) (anchor : List Int)
+    (perms : List (List Int)) : Except Err (List (List Int)) :=
   if anchorSize > 0 then do
-    let anchor := ((argsortDesc counts).take anchorSize.toNat).map (fun i => uniq[i]!)
-    let na ← pyFloorDiv anchor.length subsetSize
+    let na ← pyFloorDiv (min anchorSize.toNat uniq.length) subsetSize
+    if !(validAnchor uniq counts anchorSize.toNat anchor) then throw .other
     let ag ← splitPerm anchor (perms.getD 0 []) na
     let remain := uniq.filter (fun t => !anchor.contains t)
     let nr ← pyFloorDiv remain.length subsetSize
@@ -531,15 +535,15 @@ def assignSingles : List Row → List (Name × List Name) → List Row
       { r with plate := p, mask := false } :: assignSingles rs (asg.map (fun a => if a.1 == r.sample then (a.1, ps) else a))
     | _ => { r with plate := [], mask := false } :: assignSingles rs asg
 
-def genPairwise (subsetSize anchorSize : Int) (perms : List (List Int)) (assign : List (List Name)) (u : Screen) :
-    Except Err Screen := do
+def genPairwise (subsetSize anchorSize : Int) (anchor : List Int) (perms : List (List Int)) (assign : List (List Name))
+    (u : Screen) : Except Err Screen := do
   let comboMask := u.tids.map comboRow
   let combo ← select u comboMask
   let single ← if comboMask.any (!·) then (some <$> select u (comboMask.map (!·))) else pure none
   let flat := combo.tids.flatten
   let uniq := uniqueSorted flat
   let counts := uniq.map (fun t => flat.count t)
-  let groups ← pairwiseGroups subsetSize anchorSize uniq counts perms
+  let groups ← pairwiseGroups subsetSize anchorSize uniq counts anchor perms
   let tuples := (combo.sids.zip combo.tids).map (fun p =>
     p.1 :: (p.2.map (groupOf groups)).mergeSort (fun a b => decide (a ≤ b)))
   let ut := (tuples.eraseDups).mergeSort lexLe
